@@ -114,6 +114,9 @@ func (H) Generate(r *simrt.Rand, tier string) any {
 				o.V = next
 				if dup {
 					o.V = 1 + r.Intn(2)
+					if s.Kind != "iface" && r.Intn(3) == 0 {
+						o.V = 0 // the zero value of T is a value like any other (a nil interface may not be stored)
+					}
 				}
 				stored = append(stored, o.V)
 			case "cas":
